@@ -858,7 +858,7 @@ func (u *Unit) inlinable(fi *fnInfo) bool {
 	n := 0
 	ast.Inspect(fi.decl.Body, func(x ast.Node) bool {
 		switch x.(type) {
-		case *ast.ForStmt, *ast.RangeStmt, *ast.GoStmt, *ast.SelectStmt, *ast.DeferStmt, *ast.FuncLit:
+		case *ast.ForStmt, *ast.RangeStmt, *ast.GoStmt, *ast.SelectStmt, *ast.FuncLit:
 			ok = false
 		case ast.Stmt:
 			n++
@@ -1707,13 +1707,14 @@ func (u *Unit) runAnchorsNamed(st *State, anchor string, pos token.Pos, extra ma
 	}
 	// ghost statements and assertions at the same anchor run in contract-file order
 	var cs []*Clause
+	stable := u.stableText(anchor) // the anchor in the vocabulary of the baseline (renamed locals)
 	for _, c := range u.spec.Ghost {
-		if c.Arg == anchor {
+		if c.Arg == anchor || c.Arg == stable {
 			cs = append(cs, c)
 		}
 	}
 	for _, c := range u.spec.Asserts {
-		if c.Arg == anchor {
+		if c.Arg == anchor || c.Arg == stable {
 			cs = append(cs, c)
 		}
 	}
@@ -1781,7 +1782,7 @@ func (u *Unit) runAnchorsNamed(st *State, anchor string, pos token.Pos, extra ma
 					idx = k + 1
 				}
 			}
-			u.oblige(st, fmt.Sprintf("assert#%d@%s", idx, anchor), "assert", c.Props, t, pos, c.Text)
+			u.oblige(st, fmt.Sprintf("assert#%d@%s", idx, c.Arg), "assert", c.Props, t, pos, c.Text)
 			st.assume(t)
 		}
 	}
